@@ -693,6 +693,7 @@ type Program struct {
 	infos  syncMap[*ssa.Function, *fnInfo]
 	consts syncMap[*ssa.Const, value]
 	noInit func(path string) bool
+	embeds map[types.Object][]byte
 	mcache syncMap[methodKey, *ssa.Function]
 }
 
@@ -859,6 +860,9 @@ type Machine struct {
 	emit      func(WorkItem)
 	funcsSeen map[*ssa.Function]struct{}
 	preempts  int
+	mapOrderOn bool // explore map iteration orders (rotations)
+	mapBudget  int  // non-default rotations left on this path (-1 unlimited)
+	schedFixed bool // scheduler runs goroutines to completion in a fixed order, no decisions
 
 	// goroutines
 	gs      []*G
@@ -955,6 +959,17 @@ func (m *Machine) ensureInit(pkg *ssa.Package, caller *frame) {
 		if g, ok := mem.(*ssa.Global); ok {
 			if _, ok := gl[g]; !ok {
 				cell := zero(mustDeref(g.Type()))
+				if data, ok := m.prog.embeds[g.Object()]; ok {
+					if _, isSlice := mustDeref(g.Type()).Underlying().(*types.Slice); isSlice {
+						bs := make([]value, len(data))
+						for i, b := range data {
+							bs[i] = b
+						}
+						cell = bs
+					} else {
+						cell = string(data)
+					}
+				}
 				gl[g] = &cell
 			}
 		}
@@ -1289,10 +1304,13 @@ func (fr *frame) mapDelete(mp *omap, key value) {
 
 func (m *Machine) newMapIter(fr *frame, mp *omap) iter {
 	it := &mapIter{m: mp}
-	if m.opts.MapOrder && mp != nil && mp.live >= 2 {
+	if m.mapOrderOn && m.mapBudget != 0 && mp != nil && mp.live >= 2 {
 		// explore rotations of the iteration order
 		k := m.choose(mp.live)
 		if k > 0 {
+			if m.mapBudget > 0 {
+				m.mapBudget--
+			}
 			rot := &omap{keyType: mp.keyType}
 			var live []*mapEntry
 			for _, e := range mp.entries {
